@@ -7,7 +7,7 @@ RULE = ("interleavings of k worker puts, collector steps (flag test / pop) and t
         "plus random schedules up to k = 6 (quick) / 8, plus two schedules in which the collector thread is starved for 1.4 s / 2.3 s after the stop request; each schedule is replayed on the real _ProgressBars with instrumented "
         "queue/event objects under a deterministic scheduler and evaluated in the Coq model; non-trivial = the stop request falls "
         "while a result is still queued or un-popped; distinct = the schedule; end to end: 24 (quick) / 64 one-gene chromosomes through the CLI with 16 workers, "
-        "and 8 chromosomes in an output directory that holds partial overlap files of a killed run: one result file per chromosome whenever the exit status is 0")
+        "and 8 chromosomes in an output directory that holds partial overlap files of a killed run: one result file per chromosome whenever the exit status is 0; the hand-over: the real _process_overlap_job on generated pairs with a result queue whose put works or fails with EPIPE / ECONNRESET / EOF - a job that ends normally has put its result")
 
 
 def mirror_step(s, a):
@@ -205,12 +205,31 @@ def run(chk):
         if rep["rc"] == 0 and got != want:
             chk.violation("CLI exit 0 but %d result files for %d chromosomes in a directory holding partial overlap files of a killed run" % (len(got), len(want)),
                           {"leftover": {"nchr": 8, "left_idx": left_idx}, "leftover_partial_for": left, "files": got})
+    # the hand-over of a finished chromosome: the real _process_overlap_job of every chromosome of a generated pair, with a result queue
+    # whose put works or fails (the connection to the manager process is gone). A job that ends normally has handed its result over.
+    pr = chk.rng("putfault")
+    pcases = [gen.gen_pair(pr, max_chrom=3, max_genes=3, max_tes=6, min_chrom=2) for _ in range(3 if chk.tier == "quick" else 20)]
+    preqs = [{"op": "overlap.putfault", "case": {k_: c[k_] for k_ in ("genes", "tes", "windows")}, "faults": f_}
+             for c in pcases for f_ in (["none", "EPIPE", "EOF"], ["ECONNRESET", "none", "EPIPE"])]
+    for rq_, rep in zip(preqs, pool.run_requests(preqs, timeout=300)):
+        if not rep.get("ok"):
+            chk.oblige("hand-over of finished chromosomes executed on the real _process_overlap_job", False, json.dumps(rep)[:1500]); continue
+        for j in rep["jobs"]:
+            chk.cov["evaluations"] += 1
+            chk.count("handover:" + j["fault"])
+            if j["ended"] == "normally" and j["results_received"] != 1:
+                chk.violation("an overlap job ended normally although its result never reached the result queue (fault %s at the hand-over)" % j["fault"],
+                              {"putfault": {"case": rq_["case"], "faults": rq_["faults"]}, "job": j})
     chk.sample({"k": jobs[0][0], "schedule": jobs[0][1], "collected": real[0] and real[0]["collected"]})
     chk.sample({"k": jobs[-1][0], "schedule": jobs[-1][1], "collected": real[-1] and real[-1]["collected"]})
     return chk.finish(rule=RULE)
 
 
 def replay(chk, rp):
+    if "putfault" in rp:
+        rep = pool.run_requests([{"op": "overlap.putfault", "case": rp["putfault"]["case"], "faults": rp["putfault"]["faults"]}], timeout=300)[0]
+        print(json.dumps(rep, indent=1)[:3000])
+        return 1 if any(j["ended"] == "normally" and j["results_received"] != 1 for j in rep.get("jobs", [])) else 0
     if "leftover" in rp:
         rep, got, want, left = leftover_run(rp["leftover"]["nchr"], rp["leftover"]["left_idx"])
         print(json.dumps({"rc": rep["rc"], "result_files_for": got, "chromosomes": want, "partial_files_left_for": left}, indent=1))
